@@ -1,14 +1,14 @@
-(* C19: the lemmas of LicCode / LicIdem / LicKelvin / LicGrammar instantiated with the tables of the working tree (LicTable.spdx_table_ok)
+(* C19: the lemmas of LicCode / LicIdem / LicGrammar instantiated with the tables of the working tree (LicTable.spdx_table_ok)
    and stated about LicTop.canonicalize_license_expression.  Properties/C19.v restates them. *)
 From Coq Require Import List Arith NArith Bool.
 Import ListNotations.
-Require Import VParse LicModel LicAuto LicSpec LicLex LicCode LicIdem LicKelvin LicGrammar LicTable LicTop SpdxTable.
+Require Import VParse LicModel LicAuto LicSpec LicLex LicCode LicIdem LicGrammar LicTable LicTop SpdxTable.
 Open Scope N_scope.
 
 Notation canonicalize := canonicalize_license_expression.
 Notation spec := (spec_canon licenses exceptions).
 
-Lemma final_spec s : kfree s ->
+Lemma final_spec s :
   canonicalize s = match spec s with
                    | None => Err
                    | Some o => if nests_deeper_than 200 (spdx_tokens s) then Err
@@ -16,10 +16,10 @@ Lemma final_spec s : kfree s ->
                    end.
 Proof. exact (canon_spec licenses exceptions spdx_table_ok s). Qed.
 
-Lemma final_accepts_iff s : kfree s -> nests_deeper_than 100 (spdx_tokens s) <> true ->
+Lemma final_accepts_iff s : nests_deeper_than 100 (spdx_tokens s) <> true ->
   ((exists o, canonicalize s = Ok o) <-> spdx_tokens_ok licenses exceptions (spdx_tokens s) = true).
 Proof.
-  intros F D. rewrite (final_spec s F). unfold spec_canon.
+  intros D. rewrite (final_spec s). unfold spec_canon.
   assert (D2 : nests_deeper_than 200 (spdx_tokens s) = false).
   { destruct (nests_deeper_than 200 (spdx_tokens s)) eqn:E; [|reflexivity]. exfalso. apply D.
     unfold nests_deeper_than in *. apply (nest_exceeds_mono 100 200); [|exact E]. repeat constructor. }
@@ -29,11 +29,11 @@ Proof.
   - split; [intros (o & H); discriminate|discriminate].
 Qed.
 
-Lemma final_canonical_form s o : kfree s -> (canonicalize s = Ok o \/ canonicalize s = Limit o) ->
+Lemma final_canonical_form s o : (canonicalize s = Ok o \/ canonicalize s = Limit o) ->
   exists out, canon_tokens licenses exceptions false (spdx_tokens s) = Some out /\ o = tight out /\
               Forall2 teq (spdx_tokens s) out /\ spdx_tokens o = out /\ forallb asciib o = true.
 Proof.
-  intros F H. rewrite (final_spec s F) in H. unfold spec_canon in H.
+  intros H. rewrite (final_spec s) in H. unfold spec_canon in H.
   destruct (spdx_tokens_ok licenses exceptions (spdx_tokens s)) eqn:E; [|destruct H; discriminate].
   destruct (canon_tokens licenses exceptions false (spdx_tokens s)) as [out|] eqn:C; [|destruct H; discriminate].
   assert (o = tight out).
@@ -47,14 +47,23 @@ Proof.
 Qed.
 
 Lemma final_idempotent s o : canonicalize s = Ok o -> canonicalize o = Ok o.
-Proof. exact (canon_idempotent_all _ _ spdx_table_ok s o). Qed.
+Proof. intros H. rewrite <- H. apply (canon_idempotent _ _ spdx_table_ok s o). now left. Qed.
 
 Lemma final_layout s s' : spdx_tokens s = spdx_tokens s' -> canonicalize s = canonicalize s'.
 Proof. intros H. unfold canonicalize_license_expression. rewrite !canon_split, <- !spdx_tokens_split. now rewrite H. Qed.
 
-Lemma final_accepted_ascii s o : kfree s -> (canonicalize s = Ok o \/ canonicalize s = Limit o) ->
+Lemma final_accepted_ascii s o : (canonicalize s = Ok o \/ canonicalize s = Limit o) ->
   forall c, In c s -> asciib c = true \/ is_ws c = true.
 Proof.
-  intros F H. destruct (final_canonical_form s o F H) as (out & C & _ & Q & _ & _).
+  intros H. destruct (final_canonical_form s o H) as (out & C & _ & Q & _ & _).
   destruct (canon_tokens_shape _ _ spdx_table_ok _ _ _ C) as [_ B]. now apply (accepted_ascii s out).
+Qed.
+
+(* a non-ASCII character outside whitespace - U+212A KELVIN SIGN, U+0130, U+017F, anything - makes the whole expression invalid *)
+Lemma final_nonascii_rejected s c : In c s -> asciib c = false -> is_ws c = false -> canonicalize s = Err.
+Proof.
+  intros I A W. destruct (canonicalize s) as [o| |o|] eqn:E; [|reflexivity| |].
+  - destruct (final_accepted_ascii s o (or_introl E) c I); congruence.
+  - destruct (final_accepted_ascii s o (or_intror E) c I); congruence.
+  - exfalso. now apply (canon_no_crash licenses exceptions s).
 Qed.
